@@ -325,7 +325,7 @@ def run(tier, seed, t0):
         acc.merge(a)
     sanit.run_pass(acc, PROP, tier, seed, extra_items=escape_writer_jobs(),
                    quick={"asan": 200, "memcheck": 48, "miri": 24},
-                   thorough={"asan": 1600, "memcheck": 400, "miri": 192})
+                   thorough={"asan": 1600, "memcheck": 320, "miri": 128})
     return runner.finish(
         PROP, tier, seed, "exploration", acc, t0,
         rule="strings covering %s, doubles across the exponent range (powers of 2 and 10 with 1-ulp neighbours, "
